@@ -417,15 +417,28 @@ fn jwt_transport(via: &str, getter: &str, t: &str) -> Vec<(String, Vec<u8>)> {
 fn jwt_router(cfg: &Value, secret: String) -> Result<(VRouter, &'static str), String> {
     fn tok_from_x(req: &ohkami::Request) -> Option<&str> { req.headers.get("X-Token") }
     let nested = s(&cfg["mount"]) == "nested";
+    let stacked = s(&cfg["mount"]) == "stacked";
     macro_rules! app { ($P:ty, $h:expr) => {{
         let j: JWT<$P> = match s(&cfg["alg"]) { "HS256" => if secret.len() % 2 == 0 { JWT::default(secret.clone()) } else { JWT::new_256(secret.clone()) },
             "HS384" => JWT::new_384(secret.clone()), "HS512" => JWT::new_512(secret.clone()), a => return Err(format!("alg {a}")) };
         let j = if s(&cfg["getter"]) == "custom" { j.get_token_by(tok_from_x, ohkami::openapi::security::SecurityScheme::APIKey("xtoken", ohkami::openapi::security::APIKey::header("X-Token"))) } else { j };
         let inner = Ohkami::new((j, "/p".GET($h).POST($h)));
-        if nested { finalize(Ohkami::new(("/n".By(inner),))) } else { finalize(inner) }
+        if stacked {
+            // an outer JWT fang of the same payload type with ANOTHER secret, looking for its token in X-Outer: the inner fang still has to
+            // see a token signed with its own key (the harness always sends a valid outer token)
+            fn tok_from_outer(req: &ohkami::Request) -> Option<&str> { req.headers.get("X-Outer") }
+            let oj: JWT<$P> = JWT::new_256(outer_secret(&secret)).get_token_by(tok_from_outer, ohkami::openapi::security::SecurityScheme::APIKey("xouter", ohkami::openapi::security::APIKey::header("X-Outer")));
+            finalize(Ohkami::new((oj, "/n".By(inner))))
+        } else if nested { finalize(Ohkami::new(("/n".By(inner),))) } else { finalize(inner) }
     }}; }
     let r = match s(&cfg["ptype"]) { "typed" => app!(Claims, h_typed), _ => app!(Value, h_value) };
-    Ok((r, if nested { "/n/p" } else { "/p" }))
+    Ok((r, if nested || stacked { "/n/p" } else { "/p" }))
+}
+fn outer_secret(secret: &str) -> String { format!("outer-{secret}-key") }
+/// a valid token for the outer fang of a stacked configuration (payload {"n":4242,"sub":"outer"} fits both payload types)
+fn outer_token(cfg: &Value, secret: &str) -> String {
+    macro_rules! mk { ($P:ty) => {{ let v: $P = serde_json::from_slice(b"{\"n\":4242,\"sub\":\"outer\"}").expect("outer payload"); JWT::<$P>::new_256(outer_secret(secret)).issue(v).to_string() }}; }
+    match s(&cfg["ptype"]) { "typed" => mk!(Claims), _ => mk!(Value) }
 }
 
 fn real_issue(cfg: &Value, secret: &str, payload: &[u8]) -> Option<String> {
@@ -478,7 +491,8 @@ fn run_jwt(scn: &Value) -> Value {
     let (mut ex_ran, mut ex_diff, mut ex_err, mut ex_noerr, mut ex_panic) = (String::new(), String::new(), String::new(), String::new(), String::new());
     let mut statuses: Vec<i64> = vec![];
     for (t, payload) in &variants {
-        let lines = jwt_transport(s(&tok["via"]), s(&cfg["getter"]), t);
+        let mut lines = jwt_transport(s(&tok["via"]), s(&cfg["getter"]), t);
+        if s(&cfg["mount"]) == "stacked" { lines.push(("X-Outer".to_string(), outer_token(cfg, &secret).into_bytes())) }
         let bytes = request_bytes(method, path, &lines);
         let o = exchange(&router, &bytes, method == "HEAD");
         let value = lines.first().map(|(k, v)| format!("{k}: {}", show(v))).unwrap_or_else(|| "(no header)".into());
@@ -562,7 +576,7 @@ fn gen_jwt(rng: &mut Rng) -> Value {
     let c = |rng: &mut Rng, ok: &'static str| if !claims { "absent" } else if rng.chance(2, 3) { *rng.pick(&["absent", ok]) } else { *rng.pick(CLAIM) };
     let (exp, nbf, iat) = (c(rng, "future"), c(rng, "past"), c(rng, "past"));
     json!({"mod": "jwt",
-        "cfg": {"alg": alg, "key": *rng.pick(&["k1", "k2", "k3"]), "getter": *rng.pick(&["default", "default", "custom"]), "ptype": *rng.pick(&["value", "value", "typed"]), "mount": *rng.pick(&["top", "nested"])},
+        "cfg": {"alg": alg, "key": *rng.pick(&["k1", "k2", "k3"]), "getter": *rng.pick(&["default", "default", "custom"]), "ptype": *rng.pick(&["value", "value", "typed"]), "mount": *rng.pick(&["top", "nested", "stacked"])},
         "tok": {"skey": mostly(rng, "same", &["same", "other", "near", "empty"]), "salg": salg, "halg": halg,
                 "typ": mostly(rng, "JWT", &["JWT", "absent", "jwt", "other", "num"]), "cty": mostly(rng, "absent", &["absent", "JWT", "other"]),
                 "hshape": mostly(rng, "issue", &["issue", "algfirst", "extra", "ws"]),
